@@ -140,6 +140,13 @@ CHECKS.update({
    technique="bounded symbolic execution of the real Python (PYSYM) over an abstract EC group and reduced-width integers + z3"),
 })
 
+CHECKS.update({
+ 'C14': dict(engine="PYSYM+LLSYM", category="other",
+   text="Partial. (PYSYM) the real pure-Python integer layer (IntegerNative / IntegerBase / Util.number / Primality) with reduced-width solver variables against the mathematical definitions: sqrt, perfect squares, gcd, lcm, modular inverse, Jacobi symbol, sizes, byte conversion in both orders and every block size, bit access, shifts, mixed int/Integer and in-place operators, the documented exceptions, modular square roots for small prime moduli; Miller-Rabin never declares a prime below 2^8 composite for ANY random tape.  (LLSYM) the real C byte/word conversions with all bytes symbolic.  The real modexp C (monty_pow / monty_multiply + mont.c) runs on CONCRETE operands of word-boundary lengths under the bounds-checking LLSYM interpreter (memory safety, no leak, frame condition, result == Python pow) -- exactness only for the operands run.",
+   note="NOT decided: exactness of the multiplication-based C kernels and of the GMP back-end for all operands (wide symbolic multiplication is not SMT-decidable here, measured; GMP is a binary), _IntegerCustom glue, composites being declared composite (probabilistic), Lucas test, prime generation; bignum.c linear kernels are decided under C06.",
+   technique="bounded symbolic execution of the real Python at reduced width (PYSYM) and of the real C conversions (LLSYM) + z3; concrete interpretation of the modexp C under the LLSYM memory model"),
+})
+
 ENGINES = [
     dict(name="PYSYM", path="vlib/pysym", kind_free_text="bounded symbolic execution of the real Python source (AST-rewritten import, symbolic bytes/int proxies, fork by re-execution under a decision prefix) decided by z3"),
     dict(name="LLSYM", path="vlib/llsym", kind_free_text="symbolic interpreter of clang-14 LLVM IR (-O0 + mem2reg) of /repo/src/*.c into z3 terms, bounds-checked memory model, local path exploration with ite-merge at function returns; replay on the gcc-built C through ctypes"),
